@@ -257,8 +257,8 @@ def evaluate__instance_expression(self: XPathToken, context: ta.ContextType = No
 
             result = self[1].evaluate(context)
             if isinstance(result, list) and not result:
-                return occurs in ('*', '?') or \
-                    isinstance(context.item, XPathFunction) and \
+                # An item that does not match the item type, whatever the occurrence indicator is
+                return isinstance(context.item, XPathFunction) and \
                     context.item.name == XSD_ERROR
             elif position and occurs in ('', '?'):
                 return False
